@@ -691,7 +691,12 @@ func vWildLine(r *rand.Rand, anyNick, anyChan func() string) string {
 	}
 	// what reaches the state machine through the HTTP API went through encoding/json,
 	// which replaces invalid UTF-8 by U+FFFD
-	return strings.ToValidUTF8(s, "\uFFFD")
+	s = strings.ToValidUTF8(s, "\uFFFD")
+	// ... and the POST handler cuts the line at the first CR, LF or NUL
+	if idx := strings.IndexAny(s, "\r\n\x00"); idx > -1 {
+		s = s[:idx]
+	}
+	return s
 }
 
 // vVerifyMirror is the harness's own reading of a token it minted itself
